@@ -127,18 +127,26 @@ impl SocketSend for RepSocket {
     async fn send(&mut self, mut message: ZmqMessage) -> ZmqResult<()> {
         match self.current_request.take() {
             Some(peer_id) => {
-                if let Some(mut peer) = self.backend.peers.get_async(&peer_id).await {
-                    if let Some(envelope) = self.envelope.take() {
-                        message.prepend(&envelope);
+                let send_result = match self.backend.peers.get_async(&peer_id).await {
+                    Some(mut peer) => {
+                        if let Some(envelope) = self.envelope.take() {
+                            message.prepend(&envelope);
+                        }
+                        peer.send_queue.send(Message::Message(message)).await
                     }
-                    peer.send_queue.send(Message::Message(message)).await?;
-                    Ok(())
-                } else {
-                    Err(ZmqError::ReturnToSender {
-                        reason: "Client disconnected",
-                        message,
-                    })
+                    None => {
+                        return Err(ZmqError::ReturnToSender {
+                            reason: "Client disconnected",
+                            message,
+                        })
+                    }
+                };
+                if send_result.is_err() {
+                    // The connection has failed: forget the peer, as the round-robin senders do.
+                    self.backend.peer_disconnected(&peer_id);
                 }
+                send_result?;
+                Ok(())
             }
             None => Err(ZmqError::ReturnToSender {
                 reason: "Unable to send reply. No request in progress",
